@@ -15,13 +15,15 @@ from C16 import split_file
 PID = "C17"
 CLUSTER = "Reader"
 PROPS = "props/C17.v"
-N_QUICK = 1300
+N_QUICK = 1600
 N_THOROUGH = 20000
 RULE = ("file shapes H in 0..4 pragma lines x column line absent/last/followed by 0..5 data lines, with one defect at "
         "every position (each pragma line: missing separator, empty key, empty value, duplicate of an earlier key, "
         "unknown sort order; the column line: duplicated/dropped/renamed name, also under the 34-column gdc-1.0.0 "
         "scheme; each data line: wrong field count, CR inside a field, blank line, pragma text), plus the random "
-        "valid/defect/adversarial file stream shared with C16; each file read in Silent and in Strict mode; "
+        "valid/defect/adversarial file stream shared with C16; files with two and three defects (pragma lines: every ordered "
+        "pair of missing separator/empty key/empty value/unknown sort order/duplicate key at adjacent and distant "
+        "positions, triples; data lines: two defective lines, the same bad line twice; pragma and data defects together); each file read in Silent and in Strict mode; "
         "non-trivial: at least one error with a line number was reported; distinct by hash of (lines, override)")
 ASSUMPTIONS = [
     "hypothesis of the theorems: every scheme (registry entry or override) has distinct column names - schemes keep "
@@ -69,6 +71,44 @@ def _grid():
     return out
 
 
+def _multi_defect():
+    """two and three defects per file: pragma lines (malformed + malformed, malformed + duplicate key, malformed +
+    unknown sort order, in every order, adjacent and not) and data lines (two defective lines, the same bad line twice)"""
+    import itertools
+    out = []
+    good = ["#version v1", "#center c", "#sort.order Unsorted", "#k v", "#j w"]
+    bads = {"nosep": "#nosep", "emptykey": "# v", "emptyval": "#k2  ", "badorder": "#sort.order bogus", "dup": "#version v1"}
+    tails = ([], ["a\tb"], ["a\tb", "1\t2", "3"])
+    # pairs and triples of defects inserted at chosen positions among the good pragmas
+    for kinds in list(itertools.permutations(bads, 2)) + [("nosep", "nosep"), ("emptyval", "emptyval"),
+                                                          ("nosep", "emptykey", "dup"), ("dup", "nosep", "badorder"),
+                                                          ("badorder", "emptyval", "nosep"), ("nosep", "dup", "dup")]:
+        for positions in ((1, 2), (1, 3), (1, 5), (2, 4), (0, 1), (0, 5)) if len(kinds) == 2 else ((1, 2, 3), (0, 2, 5), (1, 3, 5)):
+            if "dup" in kinds and kinds[0] == "dup" and positions[0] == 0:
+                pass        # a "duplicate" placed first is simply the first version line: still a valid file
+            hl = list(good)
+            for kind, pos in sorted(zip(kinds, positions), key=lambda kp: -kp[1]):
+                hl.insert(pos, bads[kind])
+            tail = tails[(len(out)) % 3]
+            out.append({"lines": hl + tail, "override": None,
+                        "shape": {"stream": "multi", "H": len(hl), "col": bool(tail), "data": max(0, len(tail) - 1),
+                                  "defect": "hdr+hdr" + ("+hdr" if len(kinds) == 3 else "")}})
+    # data lines: two defective lines among five, and the same bad line twice
+    base = ["#version v1", "a\tb"]
+    data = ["%d\t%d" % (j, j) for j in range(5)]
+    for b1, b2 in itertools.product(("x", "1\t2\t3", "", "1\ta\rb"), repeat=2):
+        for i, j in ((0, 1), (0, 4), (1, 3), (3, 4)):
+            d = list(data)
+            d[i], d[j] = b1, b2
+            out.append({"lines": base + d, "override": None,
+                        "shape": {"stream": "multi", "H": 1, "col": True, "data": 5, "defect": "data+data"}})
+    # pragma defects and data defects together
+    for kind in bads:
+        out.append({"lines": ["#nosep", "#version v1", bads[kind], "a\tb", "1", "1\t2", "1\t2\t3"], "override": None,
+                    "shape": {"stream": "multi", "H": 3, "col": True, "data": 3, "defect": "hdr+hdr+data"}})
+    return out
+
+
 def _typed_grid():
     sch = R.builtin_scheme("gdc-1.0.0")
     names = sch.column_names()
@@ -106,7 +146,7 @@ def corpus():
 
 
 def generate(rng, n):
-    out = _grid() + _typed_grid() + [c for c in R.typed_special_cases() if c["shape"]["defect"] == "format-text"]
+    out = _multi_defect() + _grid() + _typed_grid() + [c for c in R.typed_special_cases() if c["shape"]["defect"] == "format-text"]
     while len(out) < n:
         out.append(R.gen_reader_case(rng, rng.choice(["valid", "defect", "defect", "adversarial"])))
     return out
